@@ -107,7 +107,7 @@ def inline(r, c: Ctx, depth=0) -> str:
                          f"<inv:{key}:*:*#{tgt}>", f"[](inv:{key}:py:*#{tgt})"])
     if k < 0.82 and c.on("footnotes"):
         c.fn += 1
-        name = r.choice(["a", "b", "1", "note", f"f{c.fn}"])
+        name = r.choice(["a", "b", "1", "note", f"f{c.fn}", "2", "10", "²", "١", "a b", "-1", "1.5"])
         return f"{w}[^{name}]"
     if k < 0.86 and c.on("roles"):
         return r.choice([
@@ -350,7 +350,7 @@ def b_target(r, c, depth):
 
 
 def b_footnote_def(r, c, depth):
-    name = r.choice(["a", "b", "1", "note", "unused", f"f{r.randint(1, 4)}"])
+    name = r.choice(["a", "b", "1", "note", "unused", f"f{r.randint(1, 4)}", "2", "10", "²", "١", "-1", "1.5"])
     c.footnotes_defined.append(name)
     return f"[^{name}]: {words(r)}" + r.choice(["", "\n\n    continued para"])
 
